@@ -1,7 +1,125 @@
 import Got.Model.Ants
-import Got.Lemmas.Ants
-/- property theorems of C07 (only theorems + non-vacuity examples live here) -/
+import Got.Lemmas.AntsInv
+/-
+C07 — ants: every accepted task completes once with a result matching its attempts.
+Model: Got.Model.Ants (timed LTS of pool.go, pool_impl.go, task_callback_ants.go, task_option.go,
+task_discard.go).  All theorems quantify over every reachable state of the current code
+(`c.old = false`), i.e. over all pool sizes, all Send streams and options, all handler behaviours
+(environment transitions wStart / wEnd), all interleavings and all timings.
+"outcome of attempt a" = `Att.outcome`: the handler's pair if the closure won the decided flag
+(`decided = 1`, possible only after its ctx check saw the context not done: `sawLive`), or
+(nil, DeadlineExceeded) if the dispatcher won it (`decided = 2`).  The flag is a single word that
+is written only by a successful CAS from 0, so exactly one side decides each attempt.
+Not proved (liveness): "at quiescence the number of handler invocations equals the number of attempts".
+-/
 open Got.Model.Ants
+
+/-- attempts and invocations: invocations ≤ attempts begun ≤ R; at most one invocation per attempt and none for
+    attempts not begun; a finished accepted task made ≥ 1 attempt; attempt a+1 was begun only after attempt a was
+    decided with a non-nil error. -/
+theorem C07_attempts (c : Cfg) (hc : c.old = false) (s : State) (hr : Reachable c s) (k : Nat) :
+    (s.task k).inv ≤ (s.task k).att ∧ (s.task k).att ≤ (s.task k).R ∧
+    (∀ a, ((s.task k).at_ a).starts ≤ 1 ∧ ((s.task k).att ≤ a → ((s.task k).at_ a).starts = 0)) ∧
+    ((s.task k).pc = .done → 1 ≤ (s.task k).att) ∧
+    (∀ a, a + 1 < (s.task k).att → ∃ p, ((s.task k).at_ a).outcome = some p ∧ p.2 ≠ .nil) := by
+  have ok := inv_reachable hc hr k
+  have hst : ∀ a, ((s.task k).at_ a).starts ≤ 1 := by
+    intro a; have := (ok.atts a).2.2.2.2.2.2; split at this <;> omega
+  refine ⟨?_, ok.att_le, ?_, ?_, ?_⟩
+  · rw [ok.inv_eq]; exact sumStarts_le _ _ hst
+  · intro a; refine ⟨hst a, ?_⟩; intro h; rw [ok.beyond a h]
+  · intro h; exact ok.att_pos (by simp [h, TPc.pre]) (by simp [h])
+  · intro a ha
+    obtain ⟨h0, _, h1⟩ := ok.past a ha
+    have hle := (ok.atts a).2.2.2.2.2.1
+    by_cases hd : ((s.task k).at_ a).decided = 1
+    · obtain ⟨v, e, hv, he⟩ := h1 hd
+      exact ⟨(v, e), by simp [Att.outcome, hd, hv], he⟩
+    · have : ((s.task k).at_ a).decided = 2 := by omega
+      exact ⟨(0, .de), by simp [Att.outcome, this], by simp⟩
+
+/-- at Done the published pair is the outcome of the last attempt; a handler's pair counts only if its closure saw
+    the context not done; the task stopped at the first success or after R attempts; every earlier attempt failed;
+    Get2 returns that pair. -/
+theorem C07_outcome (c : Cfg) (hc : c.old = false) (s : State) (hr : Reachable c s) (k : Nat)
+    (hd : (s.task k).pc = .done) :
+    1 ≤ (s.task k).att ∧ (s.task k).att ≤ (s.task k).R ∧
+    ((s.task k).at_ (s.task k).cur).outcome = some ((s.task k).result, (s.task k).err) ∧
+    (((s.task k).at_ (s.task k).cur).decided = 1 → ((s.task k).at_ (s.task k).cur).sawLive = true) ∧
+    ((s.task k).err = .nil ∨ (s.task k).att = (s.task k).R) ∧
+    (∀ a, a + 1 < (s.task k).att → ∃ p, ((s.task k).at_ a).outcome = some p ∧ p.2 ≠ .nil) ∧
+    get2 (s.task k) = some ((s.task k).result, (s.task k).err) ∧
+    (s.task k).got = some ((s.task k).result, (s.task k).err) := by
+  have ok := inv_reachable hc hr k
+  have hatt : 1 ≤ (s.task k).att := ok.att_pos (by simp [hd, TPc.pre]) (by simp [hd])
+  have ax := ok.atts (s.task k).cur
+  have hnw := no_write ok (by simp [hd, TPc.waiting]) (s.task k).cur
+  have h0 : ((s.task k).at_ (s.task k).cur).decided ≠ 0 := by
+    intro h; have := ok.dec0 hatt h; simp [hd, TPc.preDecide] at this
+  refine ⟨hatt, ok.att_le, ?_, fun h => (ax.2.2.2.1 h).1, ok.errFin (by simp [hd, TPc.fin]),
+    (C07_attempts c hc s hr k).2.2.2.2, by simp [get2, hd], ok.gotD hd⟩
+  by_cases h1 : ((s.task k).at_ (s.task k).cur).decided = 1
+  · have hac := (ax.2.2.2.1 h1).2.2
+    have hf : ((s.task k).at_ (s.task k).cur).pc.fin = true := by
+      cases hpc : ((s.task k).at_ (s.task k).cur).pc <;> simp_all [CPc.afterCas, CPc.isWrite, CPc.fin]
+    simp [Att.outcome, h1, ok.pub1 hatt h1 hf]
+  · have h2 : ((s.task k).at_ (s.task k).cur).decided = 2 := by have := ax.2.2.2.2.2.1; omega
+    obtain ⟨hr0, he⟩ := ok.pub2 hatt h2 (by simp [hd])
+    simp [Att.outcome, h2, hr0, he]
+
+/-- once Get2 is unblocked (task done or discarded) nothing any goroutine does afterwards changes what Get2 returns,
+    the onError log, or the number of attempts. -/
+theorem C07_outcome_stable (c : Cfg) (hc : c.old = false) (s : State) (hr : Reachable c s) (k : Nat)
+    (hd : (s.task k).pc = .done ∨ (s.task k).pc = .discarded) (acts : List Act) (s2 : State)
+    (h : run c s acts = some s2) :
+    get2 (s2.task k) = get2 (s.task k) ∧ (s2.task k).onErr = (s.task k).onErr ∧ (s2.task k).att = (s.task k).att := by
+  have f := run_frozen hc (inv_reachable hc hr) k hd h
+  obtain ⟨f1, f2, f3, f4, _, f6, _, _⟩ := f
+  refine ⟨?_, f4, f6⟩
+  simp [get2, f1, f2, f3]
+
+/-- the error callback: never before the task's loop is over; from the instant before wg.Done on (stages wgDone, done)
+    it has been called exactly once iff the final error is non-nil (and a callback was given), with that error. -/
+theorem C07_onerror (c : Cfg) (hc : c.old = false) (s : State) (hr : Reachable c s) (k : Nat) :
+    (((s.task k).pc = .wgDone ∨ (s.task k).pc = .done) →
+        (s.task k).onErr.map Prod.fst =
+          if (s.task k).err ≠ .nil ∧ (s.task k).hasCb then [(s.task k).err] else []) ∧
+    ((s.task k).pc ≠ .discarded → (s.task k).pc ≠ .wgDone → (s.task k).pc ≠ .done → (s.task k).onErr = []) := by
+  have ok := inv_reachable hc hr k
+  constructor
+  · intro h; exact ok.onErrF (by rcases h with h | h <;> simp [h, TPc.fin])
+  · intro h1 h2 h3
+    exact ok.onErr0 h1 (by cases hp : (s.task k).pc <;> simp_all [TPc.fin])
+
+/-- a task rejected as busy: Get2 reports the discard error, the callback (if any) got exactly that error, no attempt
+    was begun and the handler was never invoked. -/
+theorem C07_discard (c : Cfg) (hc : c.old = false) (s : State) (hr : Reachable c s) (k : Nat)
+    (hd : (s.task k).pc = .discarded) :
+    get2 (s.task k) = some (0, .discard) ∧
+    (s.task k).onErr.map Prod.fst = (if (s.task k).hasCb then [Err.discard] else []) ∧
+    (s.task k).att = 0 ∧ (s.task k).inv = 0 ∧ ∀ a, ((s.task k).at_ a).starts = 0 := by
+  have ok := inv_reachable hc hr k
+  have h0 : (s.task k).att = 0 := ok.pre0 (by simp [hd, TPc.pre])
+  refine ⟨by simp [get2, hd], ok.onErrD hd, h0, ?_, ?_⟩
+  · rw [ok.inv_eq, h0]; rfl
+  · intro a; rw [ok.beyond a (by omega)]
+
+/-! non-vacuity: a reachable finished task with two attempts (first timed out, second succeeded), and a discarded one -/
+def c07DemoActs : List Act :=
+  [.send 0 { timeout := 1000, retry := 2, discard := true, hasCb := true }, .busyTest 0, .enq 0, .take 0,
+   .loopTest 0, .sendCl 0, .wTake 0 0 0, .wStart 0 0 true, .hook3 0,
+   .send 1 { timeout := 1000, retry := 1, discard := true, hasCb := true }, .busyTest 1, .enq 1,
+   .send 2 { timeout := 1000, retry := 1, discard := true, hasCb := true }, .busyTest 2, .discardCb 2,
+   .advance 1000, .fire 0 0, .selCtx 0, .hook2 0, .decide 0, .writeDE 0, .cancel 0, .errTest 0,
+   .wEnd 0 0 0 (.h 999), .wCheck 0 0, .wClose 0 0,
+   .loopTest 0, .sendCl 0, .wTake 0 1 0, .wStart 0 1 true, .hook3 0, .advance 1500, .wEnd 0 1 8 .nil, .wCheck 0 1,
+   .hook1 0 1, .wCas 0 1, .wWrite 0 1, .wClose 0 1, .selDone 0, .decide 0, .waitDone 0, .cancel 0, .errTest 0, .wgDone 0]
+
+example : ∃ s, Reachable { N := 1 } s ∧ (s.task 0).pc = .done ∧ (s.task 0).att = 2 ∧
+    get2 (s.task 0) = some (8, .nil) ∧ (s.task 2).pc = .discarded ∧ (s.task 2).onErr = [(.discard, 0)] := by
+  refine ⟨(run { N := 1 } init c07DemoActs).getD init, ⟨c07DemoActs, run_eq_some_getD (by decide)⟩, ?_, ?_, ?_, ?_, ?_⟩ <;> decide
+
+/-! ### the two defects of the code before the decided flag (`old = true`), kept as documentation -/
 
 /-- the schedule of the torn-result defect on the code before the decided flag (N = 1, T = 1000, R = 2) -/
 def c07TornActs : List Act :=
@@ -19,3 +137,19 @@ theorem C07_old_torn :
       (s.task 0).pc = .done ∧ (s.task 0).got = some (0, .de) ∧ (s.task 0).onErr = [(.de, 2000)] ∧
       get2 (s.task 0) = some (7, .nil) := by
   refine ⟨(run { N := 1, old := true } init c07TornActs).getD init, run_eq_some_getD (by decide), ?_, ?_, ?_, ?_⟩ <;> decide
+
+/-- the schedule of the empty-result defect (N = 1, T = 1000, R = 1): the handler returns at 1500, after the deadline -/
+def c07EmptyActs : List Act :=
+  [.send 0 { timeout := 1000, retry := 1, discard := true, hasCb := true }, .busyTest 0, .enq 0, .take 0,
+   .loopTest 0, .sendCl 0, .wTake 0 0 0, .wStart 0 0 false, .advance 1000, .fire 0 0, .advance 1500,
+   .wEnd 0 0 7 .nil, .wCheck 0 0, .wClose 0 0,
+   .hook3 0, .selDone 0, .cancel 0, .errTest 0, .wgDone 0]
+
+/-- OLD code: the closure skips its write (ctx done) and closes doneChan; the dispatcher's select takes the doneChan
+    branch, so nobody writes: Get2 = (nil, nil) after one attempt whose handler returned after the deadline, onError
+    not called. -/
+theorem C07_old_empty :
+    ∃ s, run { N := 1, old := true } init c07EmptyActs = some s ∧
+      (s.task 0).pc = .done ∧ get2 (s.task 0) = some (0, .nil) ∧ (s.task 0).att = 1 ∧ (s.task 0).onErr = [] ∧
+      ((s.task 0).at_ 0).ret = some (7, .nil) ∧ ((s.task 0).at_ 0).deadline < ((s.task 0).at_ 0).hEnd := by
+  refine ⟨(run { N := 1, old := true } init c07EmptyActs).getD init, run_eq_some_getD (by decide), ?_, ?_, ?_, ?_, ?_, ?_⟩ <;> decide
